@@ -93,3 +93,9 @@ func tailStr(s string, n int) string {
 	}
 	return s
 }
+
+func init() {
+	props["C07"] = &propCfg{Level: "exploration", QuickRuns: 12000, QuickS: 45, ThoroughRuns: 1500000, ThoroughS: 1500,
+		Rule: "one case = (graph shape and size chosen around the scaled buffer capacities, or a small random graph; a loop-free program from templates with fan-out/limit/range/distinct/aggregate or from the typed generator; capacity divisor; cancellation point; scheduling policy with slow-stage/slow-consumer emphasis + schedule seed); non-trivial = the program compiled and at least one row flowed; distinct = distinct (shape, size, program, divisor, cancel point, decision-sequence hash)",
+		Assumptions: []string{"the gRPC handler keeps draining the result channel after a cancel (server/api.go:Traversal does)", "a deadlock found with scaled-down capacities is only reported after it reproduced at the production constants with the workload scaled up by the same factor", "simkv implements the kvi contract (snapshot views, atomic top-level writes)"}}
+}
